@@ -145,6 +145,7 @@ def run_schedule(scn_def, schedule, keep_log=False):
         for name, calls in scn_def["threads"].items():
             sched.spawn(name, make_worker(name, calls))
         loop_events = []
+        loop_marks = []       # (event name, data, length of the wire log when the event was handed to the consumer)
         if loop is not None:
             react = loop.get("react") or {}
 
@@ -152,6 +153,7 @@ def run_schedule(scn_def, schedule, keep_log=False):
                 res = results.setdefault("loop", [])
                 for ev in gen:
                     loop_events.append(ev.name)
+                    loop_marks.append((ev.name, getattr(ev, "data", None), len(sim.log)))
                     if ev.name in react:
                         # the application's handler on the event-loop thread reacts to the event
                         call = list(react[ev.name])
@@ -169,6 +171,8 @@ def run_schedule(scn_def, schedule, keep_log=False):
         out.wire = b"".join(e[2] for e in sim.log[mark:] if e[0] == "send")
         out.results = results
         out.loop_events = list(loop_events)
+        out.loop_marks = list(loop_marks)
+        out.send_log = [(i, e[2]) for i, e in enumerate(sim.log) if i >= mark and e[0] == "send"]
         out.taken = list(sched.taken)
         out.vacuous = list(sched.vacuous)
         out.steps = sched.step
